@@ -39,7 +39,10 @@ TIMEOUT = {"quick": 900, "thorough": 5400}
 
 def cases(tier, seed):
     n = 480 if tier == "quick" else 9000
-    return [{"D": 2 if (i % 4) else 3} for i in range(n)]
+    out = [{"D": 2 if (i % 4) else 3} for i in range(n)]
+    if tier == "thorough":
+        out.insert(0, {"kind": "suite", "D": 2})
+    return out
 
 
 _mon = None
@@ -61,6 +64,10 @@ def run(case, ctx):
     import jax.numpy as jnp
     import ginjax.geometric as geom
 
+    if case.get("kind") == "suite":
+        from .. import suite
+
+        return suite.run_suite("conv")
     rng = rng_for(ctx["seed"], ID, case["i"])
     D = case["D"]
     cfg = gen.conv_config(rng, D)
